@@ -131,7 +131,16 @@ func VH_C09_Config() {
 // the wire the window bookkeeping holds at most N outstanding packets.
 func VH_C09_Block() {
 	n := uint8([4]int{1, 2, 3, 20}[vIntRange("n_idx", 0, vParam("maxn_idx", 3))])
-	p := vConnect(n, 0, WithStaticResendTimeout(time.Second))
+	opts := []TimeoutOptions{WithStaticResendTimeout(time.Second)}
+	wait := 500 * time.Millisecond
+	if vIntRange("keepalive", 0, 1) == 1 {
+		// keep-alive on (ping after 1 s of silence, generous pong timeout):
+		// the window stays full over several ping intervals; a ping must not
+		// be squeezed into the full window, and Send N+1 must stay blocked
+		opts = append(opts, WithKeepalivePing(time.Second, 40*time.Second))
+		wait = 20 * time.Second // several resend-sync waits (3 x the resend timeout each) and ping intervals
+	}
+	p := vConnect(n, 0, opts...)
 	vAssert(p.cliErr == nil && p.srvErr == nil, "clean handshake failed")
 	if p.cliErr != nil || p.srvErr != nil {
 		return
@@ -163,7 +172,7 @@ func VH_C09_Block() {
 	select {
 	case <-done:
 		vAssert(false, "Send number N+1 returned although no acknowledgement was received")
-	case <-time.After(500 * time.Millisecond):
+	case <-time.After(wait):
 	}
 	vReach("blocked")
 	vAssert(returned == int(n), "Send did not accept exactly N messages without waiting for the peer")
